@@ -5,7 +5,7 @@ from __future__ import annotations
 import ast
 from typing import Any
 
-from ..astutil import attr_writes
+from ..astutil import attr_writes, call_arg
 from ..cfg import Node, cfg_of, node_calls, walk_own
 from ..closed import find_roles, resolver
 from ..flow import may_occurred_before, occurred_before
@@ -86,7 +86,7 @@ def run(ctx: Ctx) -> None:
         for st_, tgt, val in attr_writes(fn, "_state"):
             if fn.cls is not None and fn.cls.name == noise.name or norm(tgt.value) != "self":
                 writes.append((fn, st_, inv.get(ctx.sym.eval(val, fn.module.name) if val is not None else None, f"?{norm(val)}")))
-    got = sorted((fn.qualname, s) for fn, _, s in writes)
+    got = sorted({(fn.qualname, s) for fn, _, s in writes})  # several write sites of one transition in one handler are one transition (when it fires: R4 truth tables)
     want = sorted([("APINoiseFrameHelper.__init__", "HELLO"), (h_hello.qualname, "HANDSHAKE"), (h_hs.qualname, "READY"), ("APINoiseFrameHelper.close", "CLOSED")])
     ctx.ob("C03.R1", "_frame_helper.noise:APINoiseFrameHelper", "extracted transitions equal the specified automaton", got == want, f"extracted {got}; specified {want}")
     # READY only after read_message returned
@@ -182,7 +182,7 @@ def run(ctx: Ctx) -> None:
             ok = ok and (may == spec) and (must == spec)
         ctx.ob("C03.R4", h_hello, "name rejected iff announced, an expected name is configured and they differ", ok, fmt_table(variables, tab)[:600])
         be = bad_name_nodes[0][1]
-        ctx.ob("C03.R4", h_hello, "bad-name error carries the received name", len(be.args) == 2 and norm(be.args[1]) == name_var, f"{[norm(a)[:30] for a in be.args]}")
+        ctx.ob("C03.R4", h_hello, "bad-name error carries the received name", call_arg(be, 1, "received_name") is not None and norm(call_arg(be, 1, "received_name")) == name_var, f"{[norm(a)[:30] for a in be.args] + [k.arg for k in be.keywords]}")
     tab = truth_table(ghl, variables, classify, hs_nodes)
     ok = bool(hs_nodes)
     for vals, (may, must) in tab.items():
